@@ -210,3 +210,12 @@ C01_GRAMMARS.append("g4")
 C06_GRAMMARS.append("o3")
 
 add(Gram("k5", None, short_flags="rs", short_args="w", names=("rsw", ["rect", "sw", "width"], []), note="switch, then optional adjacent group (flag + argument), then optional positional"))
+
+_hd_secret = Named("switch", "s", ["secret"])
+_hd_secret.hidden = True
+add(Gram("hd", Level([
+    Named("switch", "a", ["alpha"]),
+    _hd_secret,
+    Named("arg", "b", ["beta"], arity="opt"),
+    Pos("opt"),
+]), short_flags="as", short_args="b", note="hidden switch next to visible items"))
